@@ -282,6 +282,53 @@ func checkC04(c *Ctx) {
 	} {
 		pinned = append(pinned, in)
 	}
+	// 4e. what the cache key leaves out.
+	//  (i) names that do not exist yet when the call is remembered: reading one fails and assigning one makes a local, until some
+	//      enclosing scope defines it, after which the same call reads / writes that variable
+	for _, body := range []string{"catch(y).err", "y = 5; y", "catch(y + 1).value", "catch(y()).err", "y = [1]; y[0]", "if catch(y).err {0} else {y}", "for i = 1 {y = 7}; 1"} {
+		for _, def := range []string{"y = 1", "y := 1", "func y() {2}", "y = (() => 3)", "sety = func() {y = 4}; sety()", "for i = 1 {y = 6}"} {
+			pinned = append(pinned, []string{"f = func() {" + body + "}", "println(catch(f()))", "println(catch(f()))", def, "println(catch(f()))", "println(catch(y))", "println(catch(f()), catch(y))"})
+			pinned = append(pinned, []string{"mk = func() {g = func() {" + body + "}; r1 = catch(g()); " + def + "; r2 = catch(g()); [r1, r2, catch(y)]}", "println(catch(mk()))", "println(catch(mk()))"})
+			pinned = append(pinned, []string{"f = func(x) {" + body + "}", "w = func(x) {f(x)}", "println(catch(w(1)))", def, "println(catch(w(1)), catch(y))"})
+		}
+	}
+	//  (ii) two functions whose texts differ only in what a compact print could drop (grouping of the same operator, a statement
+	//      boundary before a sign / bracket / parenthesis, a comment): each must compute its own result
+	for _, pr := range [][2]string{{"a + (b + c)", "a + b + c"}, {"a * (b * c)", "a * b * c"}, {"a - (b - c)", "a - b - c"}, {"a / (b / c)", "a / b / c"}, {"(a + b) + c", "a + (b + c)"},
+		{"a + (b - c)", "a + b - c"}, {"a - (b + c)", "a - b + c"}, {"a * (b / c)", "a * b / c"}, {"a * (b % c)", "a * b % c"}, {"a; -b", "a - b"}, {"a; +b", "a + b"}, {"a; [b]", "a[b]"}, {"a; (b)", "a(b)"},
+		{"a /* c */ + b", "a + b"}, {"a + b // c\n", "a + b + c"}, {"a + (b + (c + a))", "a + b + c + a"}, {"-(a + b) + c", "-a + b + c"}, {"a == (b == c)", "a == b == c"}, {"a < (b < c)", "a < b < c"},
+		{"a && (b || c)", "a && b || c"}, {"a | (b & c)", "a | b & c"}, {"a << (b << c)", "a << b << c"}, {"(a, b, c)", "a"}, {"[a + (b + c)]", "[a + b + c]"}, {"x = a + (b + c); x", "x = a + b + c; x"},
+		{"(() => a + (b + c))()", "(() => a + b + c)()"}} {
+		for _, args := range []string{"[1], 2, 3", `"s", 1, 2`, "0.1, 0.2, 0.3", "1e308, 1e308, -1e308", "[1], [2], [3]", "7, 2, 3", `1, 2, "s"`, "true, false, true", "[1, 2, 3], 1, 1", "(x => x + 1), 1, 2"} {
+			if !c.Thorough() && memoHash(pr[0]+args+fmt.Sprint(c.Seed))%4 != 0 {
+				continue
+			}
+			f, g := "f = func(a, b, c) {"+pr[0]+"}", "g = func(a, b, c) {"+pr[1]+"}"
+			pinned = append(pinned, []string{f, g, "println(catch(f(" + args + ")))", "println(catch(g(" + args + ")))", "println(catch(f(" + args + ")), catch(g(" + args + ")))"})
+			pinned = append(pinned, []string{f, g, "println(catch(g(" + args + ")))", "println(catch(f(" + args + ")))"})
+		}
+	}
+	// the named shape, always: + on an array groups differently
+	pinned = append(pinned, []string{"f = func(a, b, c) {a + (b + c)}", "g = func(a, b, c) {a + b + c}", "println(f([1], 2, 3))", "println(g([1], 2, 3))"})
+	//  (iii) a call whose result holds a function: the function carries the variables of the call that made it, two calls with
+	//      the same arguments must not hand out the same ones
+	for _, holder := range []string{"F", "[F]", `{"f": F}`, "[[F], 1]", `{"k": [F]}`, "[n, F]"} {
+		for _, st := range [][2]string{{"c = n", "c = c + 1; c"}, {"c = [n]", "c = c + [1]; len(c)"}, {"c = {1: n}", "c[len(c) + 1] = 1; len(c)"}, {"c := n", "c++; c"}} {
+			get := map[string]string{"F": "R", "[F]": "R[0]", `{"f": F}`: "R.f", "[[F], 1]": "R[0][0]", `{"k": [F]}`: "R.k[0]", "[n, F]": "R[1]"}[holder]
+			mk := "mk = func(n) {" + st[0] + "; " + strings.ReplaceAll(holder, "F", "func() {"+st[1]+"}") + "}"
+			ga, gb := strings.ReplaceAll(get, "R", "a"), strings.ReplaceAll(get, "R", "b")
+			pinned = append(pinned, []string{mk, "a = mk(0)", "b = mk(0)", "println(" + ga + "(), " + ga + "(), " + gb + "())", "d = mk(0)", "println(" + strings.ReplaceAll(get, "R", "d") + "(), " + gb + "())"})
+			pinned = append(pinned, []string{mk, "w = func(n) {mk(n)}", "a = w(0)", "b = w(0)", "println(" + ga + "(), " + ga + "(), " + gb + "())"})
+		}
+	}
+	//  (iv) containers that shrank before being passed: what was removed must neither reach the key nor break it
+	for _, v := range []string{"(x => x)", "(0:12)", "{1: (x => x)}", "-0.0", "nil", `"s"`, "[(x => x)]", "2.5"} {
+		for _, mk := range []string{"m = {1: 1, 2: V}; del(m[2])", "m = {1: 1, 2: 2, 3: V}; del(m[3]); del(m[2])", "m = {1: V, 2: 1}; del(m[1])", "m = [1, V][0:1]", "m = rest([V, 1])",
+			"m = {1: 1, 2: V}; m = rest(m)", `m = {"k": {1: 1, 2: V}}; del(m.k[2])`, "m = {1: 1, 2: 2, 3: 3, 4: 4, 5: V}; del(m[5])", "m = [{1: 1, 2: V}]; del(m[0][2])"} {
+			pinned = append(pinned, []string{strings.ReplaceAll(mk, "V", v), `f = func(q) {println("called", q); len(q)}`, "println(catch(f(m)))", "println(catch(f(m)))", "n = m", "println(catch(f(n)))",
+				"println(catch(f({1: 1})), catch(f([1])), catch(f(m)))"})
+		}
+	}
 	// 5. key confusion matrix: every function shape called with every ordered pair of argument lists that a sloppy cache key
 	//    could identify (int / float / string of the same digits, 0.0 / -0.0 / 0, an array / its spread / its nesting,
 	//    small / large containers, prefix-equal lists): the second and third call must not replay the first one's output
@@ -323,6 +370,14 @@ func checkC04(c *Ctx) {
 		}
 		c.Fail(memoSignature(in), describeDiff(ecs[i].A, ecs[i].B, v.At), map[string]any{"check": "memo", "inputs": in})
 	}
+}
+
+func memoHash(s string) uint32 {
+	h := uint32(2166136261)
+	for i := 0; i < len(s); i++ {
+		h = (h ^ uint32(s[i])) * 16777619
+	}
+	return h >> 7
 }
 
 func replayC04(rp map[string]any) (bool, string) {
